@@ -4,42 +4,29 @@
 # encodings, ExtensionObject kinds; generic structures by schema).  TLC proves Dec(Enc(v)) = Norm(v) with nothing
 # left over for every value, two deviation demos must be caught, and every state is replayed on ua.Encode /
 # ua.Decode: bytes against the specification's tokens (binding), decoded value against Norm(v), consumed length.
-import json
+import codec_common as cc
 import vf
 
 
 def body(run):
     q = run.quick()
     exe = run.go_build("codec")
-    schemas = run.go_run(exe, ["-mode", "schemas"], cases=[])
-    sch = [r for r in schemas if r.get("status") == "ok" and r.get("class") == "schemas"]
-    files = None
-    if sch:
-        files = {"CodecSchemas.tla": sch[0]["obs"]["tla"]}
-        run.cov["registered_types"] = sch[0]["obs"]["types"]
-    jobs = [
-        lambda: run.tlc("Codec", "Codec", "Codec_values_gen.cfg", mode="gen", timeout=3000,
-                        label="contract InvRoundTrip + rows: every built-in value"),
+    files = cc.schema_files(run, exe)
+    res = run.parallel(
+        lambda: cc.value_rows(run),
         lambda: run.tlc("Codec", "Codec", "Codec_dev_bsarr.cfg", expect="violation", count=False,
                         label="deviation demo: array of ByteString without elements violates InvRoundTrip"),
         lambda: run.tlc("Codec", "Codec", "Codec_dev_zerodim.cfg", expect="violation", count=False,
                         label="deviation demo: decoder rejecting a zero-length dimension violates InvRoundTrip"),
-    ]
-    if files:
-        jobs.append(lambda: run.tlc("Codec", "CodecStructs", "CodecStructs_quick_gen.cfg" if q else "CodecStructs_gen.cfg",
-                                    mode="gen", files=files, timeout=3000,
-                                    label="contract InvRoundTrip + rows: every registered structure x recipe"))
-    res = run.parallel(*jobs)
-    rows = res[0].rows + (res[3].rows if files else [])
-    if res[0].distinct != len(res[0].rows):
-        raise vf.Inconclusive("values: %d states but %d rows" % (res[0].distinct, len(res[0].rows)))
+        lambda: cc.struct_rows(run, files, not q))
+    rows = res[0].rows + res[3].rows
     run.log("TLC: %d states; %d rows to replay" % (run.cov["states"], len(rows)))
     results = run.go_run(exe, ["-mode", "c01"], cases=rows, timeout=1800)
     if len(results) != len(rows):
         raise vf.Inconclusive("harness returned %d results for %d rows" % (len(results), len(rows)))
     run.absorb(results)
     run.cov["rows_builtin"] = len(res[0].rows)
-    run.cov["rows_structs"] = len(res[3].rows) if files else 0
+    run.cov["rows_structs"] = len(res[3].rows)
     run.cov["rule"] = ("one case per TLC state; class = type / encoding or mask or Variant element type x shape "
                        "(scalar, null array, empty, 1-D, multi-dim, zero-length dimension) resp. structure x recipe")
     run.assumptions += [
